@@ -379,17 +379,24 @@ func newPollReg(kind string) (pollReg, func()) {
 		}
 		return r, func() {}
 	default:
-		client, err := dogstatsd.NewWithWriter(&memWriter{}, dogstatsd.WithoutTelemetry(), dogstatsd.WithoutClientSideAggregation())
+		// one statsd client per process (creating and closing one costs milliseconds): it only receives
+		// the polled gauge values and keeps no state the life-cycle scenarios observe
+		if sharedDD == nil {
+			client, err := dogstatsd.NewWithWriter(&memWriter{}, dogstatsd.WithoutTelemetry(), dogstatsd.WithoutClientSideAggregation())
+			if err != nil {
+				panic(err)
+			}
+			sharedDD = client
+		}
+		r, err := ddreg.NewMetricRegistryWithClient(sharedDD, "p", pollEvery)
 		if err != nil {
 			panic(err)
 		}
-		r, err := ddreg.NewMetricRegistryWithClient(client, "p", pollEvery)
-		if err != nil {
-			panic(err)
-		}
-		return r, func() { client.Close() }
+		return r, func() {}
 	}
 }
+
+var sharedDD *dogstatsd.Client
 
 func livePollers(main *vrt.Thread) int {
 	n := 0
@@ -510,6 +517,71 @@ func c20StopRace(kind string) *mc.Scenario {
 	}
 }
 
+// Start and Stop called concurrently: every call returns, at most one poller exists afterwards, and
+// the registry still starts and stops cleanly (one poll per period, none after Stop).
+func c20LifecycleConcurrent(kind string) *mc.Scenario {
+	progsA := [][]string{{"Start"}, {"Stop"}, {"Stop", "Start"}, {"Start", "Stop"}}
+	progsB := [][]string{{"Start"}, {"Stop"}}
+	return &mc.Scenario{
+		Name:   "C20/poller-lifecycle-concurrent/" + kind,
+		Params: "initially started or not; thread A runs one of {Start, Stop, Stop;Start, Start;Stop}, thread B one of {Start, Stop}, concurrently; then Stop, Start, one period, Stop",
+		Cfg:    vrt.Config{MaxSteps: 20000, Horizon: int64(6 * pollEvery)},
+		Body: func(x *mc.Exec) {
+			r, closeFn := newPollReg(kind)
+			defer closeFn()
+			polls := 0
+			r.RegisterGauge("g", func() (float64, bool) { polls++; return 1, true })
+			initially := vrt.Choose(2) == 1
+			if initially {
+				r.Start()
+			}
+			pa, pb := progsA[vrt.Choose(len(progsA))], progsB[vrt.Choose(len(progsB))]
+			x.Aux = fmt.Sprintf("started=%v A=%v B=%v", initially, pa, pb)
+			run := func(p []string) func() {
+				return func() {
+					for _, op := range p {
+						if op == "Start" {
+							r.Start()
+						} else {
+							r.Stop()
+						}
+					}
+				}
+			}
+			ta, tb := vrt.GoL("A", run(pa)), vrt.GoL("B", run(pb))
+			vrt.Join(ta, tb)
+			if n := livePollers(vrt.Self()); n > 1 {
+				x.Fail(kind+"/two-pollers", "%v: %d poller threads are alive after concurrent Start/Stop calls returned", x.Aux, n)
+			}
+			r.Stop()
+			if n := livePollers(vrt.Self()); n != 0 {
+				x.Fail(kind+"/poller-survives-stop", "%v: after a final Stop %d poller thread(s) are still alive", x.Aux, n)
+			}
+			r.Start()
+			before := polls
+			vtime.Sleep(pollEvery + 1)
+			vrt.WaitQuiescent()
+			if d := polls - before; d != 1 {
+				x.Fail(kind+"/double-poll", "%v: after Stop and Start one period polled the gauge %d times", x.Aux, d)
+			}
+			r.Stop()
+			before = polls
+			vtime.Sleep(2 * pollEvery)
+			vrt.WaitQuiescent()
+			if polls != before {
+				x.Fail(kind+"/polls-while-stopped", "%v: the gauge was polled %d times after the final Stop", x.Aux, polls-before)
+			}
+			x.Observe("%v pollers-ok", x.Aux)
+			x.MarkConflict()
+		},
+		Post: func(x *mc.Exec, r *vrt.Result) {
+			if r.Stuck && !x.Failed() {
+				x.Fail(kind+"/lifecycle-deadlock", "%v: a concurrent Start/Stop call never returned: %v", x.Aux, r.StuckInfo)
+			}
+		},
+	}
+}
+
 func runC20(c *Ctx) {
 	for _, k := range []string{"simple", "precise"} {
 		c.runBFS(c20StratModel(k), mc.BFSOptions{MaxDepth: 12, MaxStates: 100000})
@@ -528,6 +600,7 @@ func runC20(c *Ctx) {
 	c20Names(c)
 	for _, kind := range []string{"gometrics", "datadog"} {
 		c.Explore(c20Lifecycle(kind, c.Pick(6, 7)), mc.Options{PreemptBound: 0})
+		c.Explore(c20LifecycleConcurrent(kind), mc.Options{PreemptBound: c.Pick(3, 4)})
 		c.Explore(c20StopRace(kind), mc.Options{PreemptBound: pbStop(c)})
 	}
 	_ = limit.NoopLimitLogger{}
